@@ -1,5 +1,5 @@
 (* Model/C05Run.v - case type and checker evaluated on harness-generated cases (C05) *)
-From ReqV Require Export Lib.Bytes Lib.BigEndian Model.QuicVarint Model.H2Frame.
+From ReqV Require Export Lib.Bytes Lib.BigEndian Model.QuicVarint Model.H2Frame Model.H3Frame.
 Open Scope N_scope.
 
 
@@ -8,7 +8,16 @@ Inductive c05_case :=
 | VarintEncLen (v len : N) (obs : option bytes)
 | VarintDec (input : bytes) (obs_parse : vi_res) (obs_read : option (N * bytes))
 | H2Read (max_read : N) (input : bytes) (obs : list (res frame))
-| H2Write (c : wcall) (obs : wres).
+| H2Write (c : wcall) (obs : wres)
+(* HTTP/3: one ParseNext call on a reader holding input; the bytes left are compared on success *)
+| H3Next (input : bytes) (obs : h3res h3frame) (obs_rest : option bytes)
+(* dataFrame/headersFrame.Append (t = 0 / 1) *)
+| H3FrameHdr (t l : N) (obs : option bytes)
+(* settingsFrame.Append: the map, the order the call iterated it in (read back from the bytes), the bytes *)
+| H3SettingsAppend (d e : bool) (other order : list (N * N)) (obs : option bytes)
+| H3Fields (is_request : bool) (fs : list field) (obs : hres h3header)
+| H3Trailers (fs : list field) (obs : hres hmap)
+| H3Response (fs : list field) (obs : hres (h3header * Z)).
 
 Definition optN_eqb (a b : option N) : bool :=
   match a, b with
@@ -85,6 +94,64 @@ Definition wres_eqb (a b : wres) : bool :=
   | _, _ => false
   end.
 
+(* ---- HTTP/3 observables ---- *)
+Definition pairs_sub (a b : list (N * N)) : bool :=
+  forallb (fun p => match assocN (fst p) b with Some v => v =? snd p | None => false end) a.
+(* equal as maps (the observed one is sorted by id, the model's is in insertion order) *)
+Definition pairs_same_map (a b : list (N * N)) : bool :=
+  (length a =? length b)%nat && pairs_sub a b && pairs_sub b a.
+Definition h3settings_eqb (a b : h3settings) : bool :=
+  Bool.eqb (sf_datagram a) (sf_datagram b) && Bool.eqb (sf_extconnect a) (sf_extconnect b) &&
+  pairs_same_map (sf_other a) (sf_other b).
+Definition h3frame_eqb (a b : h3frame) : bool :=
+  match a, b with
+  | H3Data l, H3Data l' | H3Headers l, H3Headers l' => l =? l'
+  | H3Settings s, H3Settings s' => h3settings_eqb s s'
+  | _, _ => false
+  end.
+Definition h3err_eqb (a b : h3err) : bool :=
+  match a, b with
+  | H3EOF, H3EOF => true
+  | H3Reserved t, H3Reserved t' => t =? t'
+  | H3SettingsTooLarge l, H3SettingsTooLarge l' => l =? l'
+  | H3DupSetting i, H3DupSetting i' => i =? i'
+  | H3BadSettingValue i v, H3BadSettingValue i' v' => (i =? i') && (v =? v')
+  | _, _ => false
+  end.
+Definition h3res_frame_eqb (a b : h3res h3frame) : bool :=
+  match a, b with
+  | H3Ok x, H3Ok y => h3frame_eqb x y
+  | H3Err x, H3Err y => h3err_eqb x y
+  | _, _ => false
+  end.
+Definition hmap_sub (a b : hmap) : bool :=
+  forallb (fun kv => match assoc_bytes (fst kv) b with Some vs => list_eqb bytes_eqb vs (snd kv) | None => false end) a.
+Definition hmap_eqb (a b : hmap) : bool := (length a =? length b)%nat && hmap_sub a b && hmap_sub b a.
+Definition mkhd (path method authority scheme status protocol : bytes) (cl : option N) (m : hmap) : h3header :=
+  {| hd_path := path; hd_method := method; hd_authority := authority; hd_scheme := scheme; hd_status := status;
+     hd_protocol := protocol; hd_cl := cl; hd_headers := m |}.
+Definition h3header_eqb (a b : h3header) : bool :=
+  bytes_eqb (hd_path a) (hd_path b) && bytes_eqb (hd_method a) (hd_method b) &&
+  bytes_eqb (hd_authority a) (hd_authority b) && bytes_eqb (hd_scheme a) (hd_scheme b) &&
+  bytes_eqb (hd_status a) (hd_status b) && bytes_eqb (hd_protocol a) (hd_protocol b) &&
+  optN_eqb (hd_cl a) (hd_cl b) && hmap_eqb (hd_headers a) (hd_headers b).
+(* model error vs observed error class; a non-ASCII name is refused by whichever check sees it first *)
+Definition hderr_match (m o : hderr) : bool :=
+  match m, o with
+  | HNonAsciiName, (HNotLower | HBadValue | HPseudoAfterRegular | HUnknownPseudo | HBadName) => true
+  | HNotLower, HNotLower | HBadValue, HBadValue | HPseudoAfterRegular, HPseudoAfterRegular
+  | HUnknownPseudo, HUnknownPseudo | HWrongPseudo, HWrongPseudo | HBadName, HBadName | HBadTE, HBadTE
+  | HContradictingCL, HContradictingCL | HInvalidCL, HInvalidCL | HMissingStatus, HMissingStatus
+  | HInvalidStatus, HInvalidStatus | HPseudoInTrailer, HPseudoInTrailer => true
+  | _, _ => false
+  end.
+Definition hres_eqb {A} (eq : A -> A -> bool) (m o : hres A) : bool :=
+  match m, o with
+  | HOk x, HOk y => eq x y
+  | HErr x, HErr y => hderr_match x y
+  | _, _ => false
+  end.
+
 Definition c05_check (c : c05_case) : bool :=
   match c with
   | VarintEnc v l e => optN_eqb (vi_len v) l && opt_bytes_eqb (vi_append v) e
@@ -93,4 +160,14 @@ Definition c05_check (c : c05_case) : bool :=
   | H2Read mx i obs =>
       list_eqb res_eqb (read_frames (length obs) {| rs_last := 0; rs_max := set_max_read mx |} i) obs
   | H2Write c obs => wres_eqb (run_wcall c) obs
+  | H3Next i obs rest =>
+      let '(r, lft) := h3_parse_next i in
+      h3res_frame_eqb r obs && match rest with Some x => bytes_eqb lft x | None => true end
+  | H3FrameHdr t l obs => opt_bytes_eqb (h3_frame_header t l) obs
+  | H3SettingsAppend d e other order obs =>
+      pairs_same_map other order && opt_bytes_eqb (h3_settings_append d e order) obs
+  | H3Fields q fs obs => hres_eqb h3header_eqb (h3_parse_headers q fs) obs
+  | H3Trailers fs obs => hres_eqb hmap_eqb (h3_parse_trailers fs) obs
+  | H3Response fs obs =>
+      hres_eqb (fun a b => h3header_eqb (fst a) (fst b) && (snd a =? snd b)%Z) (h3_response fs) obs
   end.
